@@ -7,4 +7,6 @@ cd /verif && cp -f evidence/$P.json /tmp/try_seed.evidence.$P 2>/dev/null
 ./check "$P" --tier "$TIER" > /tmp/try_seed.out 2>&1; rc=$?
 cp -f /tmp/try_seed.evidence.$P evidence/$P.json 2>/dev/null   # the committed evidence must come from the unchanged tree
 git -C /repo checkout -- . && git -C /repo clean -fdq -- src examples tests 2>/dev/null
+# the Tie-A files were regenerated from the patched tree: regenerate them from the restored one
+for t in tools/tiea/*.py; do python3 tools/rs2v.py "$(basename "$t" .py)" /repo/src >/dev/null 2>&1 || true; done
 echo "exit=$rc"; grep -E "VIOLATION|KNOWN|obligations" /tmp/try_seed.out
